@@ -431,6 +431,13 @@ def check_kband(case):
     eq(D(r), A - B2, "sub")
     same_transform(r.transformTR, dTR, "sub:transformTR")
     same_transform(r.transformInv, dInv, "sub:transformInv")
+    # '-' is element-wise over the k-points whatever way the operands were assembled (blocks of a concatenation)
+    AB = np.vstack([A, B])
+    W = rand(rng, AB.shape, case["cplx"])
+    eq(D((a + b) - mk(W)), AB - W, "sub-of-concat")
+    eq(D(mk(W) - (a + b)), W - AB, "sub-of-concat")
+    eq(D((a + b) - (mk(W[:1]) + mk(W[1:]))), AB - W, "sub-of-concat")
+    eq(D((mk(W[:-1]) + mk(W[-1:])) - (a + b)), W - AB, "sub-of-concat")
     a2 = mk(A)
     a2.add(b2)
     eq(D(a2), A + B2, "add-inplace")
